@@ -447,6 +447,9 @@ func (m *Machine) rangeIter(x value, t types.Type) iter {
 	switch x := x.(type) {
 	case *Map:
 		it := &mapIter{m: m, mp: x}
+		if x != nil && m.RecordEvents && m.trackMap[x] {
+			m.events = append(m.events, Event{G: m.curG, Kind: "rd", Obj: fmt.Sprintf("map%p", x), Site: m.site()})
+		}
 		if x != nil {
 			for i := range x.keys {
 				if x.live[i] {
@@ -532,6 +535,9 @@ func (m *Machine) mapFind(mp *Map, key value) int {
 	if mp == nil {
 		return -1
 	}
+	if m.RecordEvents && m.trackMap[mp] {
+		m.events = append(m.events, Event{G: m.curG, Kind: "rd", Obj: fmt.Sprintf("map%p", mp), Site: m.site()})
+	}
 	if h, ok := hashKey(key); ok {
 		if mp.symKeys == 0 {
 			if i, ok := mp.idx[h]; ok {
@@ -583,6 +589,9 @@ func (m *Machine) lookup(instr *ssa.Lookup, x, idx value) value {
 func (m *Machine) mapSet(mp *Map, key, val value) {
 	if m.freezeOn && m.frozenM[mp] {
 		m.violation("write-to-frozen", "map update on a map that existed before vxFreeze")
+	}
+	if m.RecordEvents && m.trackMap[mp] {
+		m.events = append(m.events, Event{G: m.curG, Kind: "wr", Obj: fmt.Sprintf("map%p", mp), Site: m.site()})
 	}
 	i := m.mapFind(mp, key)
 	if i >= 0 {
